@@ -484,6 +484,13 @@ func HasAncestor(node *html.Node, ancestorTagNames ...string) bool {
 
 // IsProbablyVisible determines if a node is visible.
 func IsProbablyVisible(node *html.Node) bool {
+	// Script and style elements are never content, not even when an inline
+	// style (e.g. "display:block") overrides their default "display:none".
+	switch dom.TagName(node) {
+	case "script", "style":
+		return false
+	}
+
 	displayStyle := GetDisplayStyle(node)
 	styleAttr := dom.GetAttribute(node, "style")
 	nodeAriaHidden := dom.GetAttribute(node, "aria-hidden")
